@@ -115,6 +115,8 @@ static inline double cm_ceil(double x)
 
 #define CM_LT_PAIR(a, b) ((a).first < (b).first || ((a).first == (b).first && (a).second < (b).second))
 #define CM_EQ_PAIR(a, b) ((a).first == (b).first && (a).second == (b).second)
+/* pointer keys: addresses are not ordered by the model; new keys are appended (iteration order = insertion order) */
+#define CM_LT_APPEND(a, b) (1)
 #define CM_LT_SCALAR(a, b) ((a) < (b))
 #define CM_EQ_SCALAR(a, b) ((a) == (b))
 
